@@ -596,7 +596,9 @@ pub fn run(ctx: &Ctx) -> Rec {
     (0, 255, 128, vec![]),
     (127, 128, 129, vec![1]),
   ];
-  let ncfg = if ctx.scale < 1.0 { 1 } else { configs.len() as u64 };
+  let only = ctx.extra.get("only").cloned().unwrap_or_default();
+  let want = |k: &str| only.is_empty() || only == k;
+  let ncfg = if !want("exhaustive") { 0 } else if ctx.scale < 1.0 { 1 } else { configs.len() as u64 };
   let mut rec = par_run(ctx, "exhaustive", ncfg * 8, |rec, i, _| {
     let (a, b, u, extra) = &configs[(i / 8) as usize];
     exhaustive(rec, depth, *a, *b, *u, extra, (i % 8) as usize);
@@ -605,7 +607,12 @@ pub fn run(ctx: &Ctx) -> Rec {
     }
   });
   rec.note("exhaustive_depth", json!(depth));
-  rec.merge(par_run(ctx, "history", ctx.n(64, 2000), |rec, i, rng| random_history(rec, ctx, i, rng)));
+  if want("history") {
+    rec.merge(par_run(ctx, "history", ctx.n(64, 2000), |rec, i, rng| random_history(rec, ctx, i, rng)));
+  }
+  if !want("concurrent") {
+    return rec;
+  }
   // concurrent histories run one at a time (each spawns its own 10-17 threads)
   let mut c1 = ctx.clone();
   c1.threads = 2;
